@@ -54,7 +54,11 @@ def run_obligation(prop: str, module: str, ob, known: list, workdir: str, seed: 
         "cpu_s": 0.0, "wall_s": 0.0, "replays": 0, "smoke_runs": 0, "known": [], "violation": None, "abandoned": {}, "lines": [], "rounds": 0,
     }
     t0 = time.time()
-    open_known = {f["signature"]: f for f in known if f.get("status") == "open" and fnmatch.fnmatch(ob.name, f.get("obligations", "*"))}
+    open_known = {}
+    for f in known:
+        if f.get("status") == "open" and fnmatch.fnmatch(ob.name, f.get("obligations", "*")):
+            for sig in f.get("signatures", [f["signature"]] if "signature" in f else []):
+                open_known[sig] = f
 
     # --- harness sanity: concrete random runs of the same harness (never a verdict by itself)
     if ob.smoke and ob.expect == "confirm":
